@@ -149,4 +149,51 @@ def planCfg (ts : List TSpec) (maxShard : Option Nat) (al : Option Nat) (athr : 
   else if 1 < workers then some (planSharded ts shards al athr workers capacity)
   else none
 
+/-! ### the reservation of a tensor and what a write holds in memory (deepening round 2) -/
+
+/-- `_core._EXTERNAL_TENSOR_COPY_CHUNK_SIZE` (`_core.py` 405) -/
+def copyChunkSize : Nat := 1024 * 1024
+
+/-- one tensor argument of the save BEFORE its reservation is computed -/
+structure TArg where
+  obj : Nat
+  /-- `isinstance(tensor, ExternalTensor)` -/
+  external : Bool
+  fails : Bool
+  cbFails : Bool
+  /-- `tensor.tobytes()`; `info.length` = `nbytes` is its length (C04) -/
+  data : List Nat
+deriving Repr, DecidableEq, Inhabited
+
+/-- `_reservation_bytes(tensor, tensor_length)` (external_data.py 378-382); `chunk` is
+    `_EXTERNAL_TENSOR_COPY_CHUNK_SIZE`.  `_ByteBudget.acquire` then takes `max(nbytes, 0)`: the identity here. -/
+def reservationBytes (chunk : Nat) (external : Bool) (length : Nat) : Nat :=
+  if external then min length chunk else length
+
+def TArg.spec (chunk : Nat) (a : TArg) : TSpec :=
+  ⟨a.obj, reservationBytes chunk a.external a.data.length, a.fails, a.cbFails, a.data⟩
+
+/-- the userspace copy loop of `ExternalTensor.tofile` (`_core.py` 1012-1026), taken when `copy_file_range`
+    is not available / not applicable: sizes of the successive buffers `src.read(min(CHUNK, bytes_to_copy))`
+    with `remaining` bytes to go (the source is long enough, every read returns what was asked; `src.read(0)`
+    returns nothing and the loop raises).  `fuel` bounds the recursion. -/
+def copyReads (chunk : Nat) : Nat → Nat → List Nat
+  | 0, _ => []
+  | fuel + 1, remaining =>
+    if remaining = 0 then []
+    else if min chunk remaining = 0 then []
+    else min chunk remaining :: copyReads chunk fuel (remaining - min chunk remaining)
+
+/-- bytes of a tensor held in a userspace buffer by the thread that writes it, at most: the whole
+    `tobytes()` for an in-memory tensor (`file.write(tensor.tobytes())`, numpy `tofile`), ONE buffer of the copy
+    loop for an ExternalTensor (nothing when the kernel copies).  Not counted: the previous buffer, which CPython
+    keeps alive until the assignment `chunk = src.read(..)` has completed (finding D331). -/
+def peakBytes (chunk : Nat) (a : TArg) : Nat :=
+  if a.external then (copyReads chunk a.data.length a.data.length).foldr max 0 else a.data.length
+
+/-- `planCfg` on tensor arguments whose reservations are computed by `_reservation_bytes` -/
+def planArgs (chunk : Nat) (args : List TArg) (maxShard : Option Nat) (al : Option Nat) (athr : Nat)
+    (workers capacity : Nat) : Option Cfg :=
+  planCfg (args.map (TArg.spec chunk)) maxShard al athr workers capacity
+
 end IrVerif.WriterN
